@@ -51,6 +51,56 @@ def _run(repo, fn_q, stages, pre=None, prem=None):
     return r, names, log
 
 
+def pipeline_from_sources(repo, run, rule):
+    """the documents enter through add_source itself (evaluated; the parser is a stand-in that yields three documents: an include that
+    expands to two stages, a second include, a plain mapping) and are then preprocessed: every document that was added is asked to
+    preprocess exactly once, whatever add_source noted about it and however earlier stages changed the length of the list"""
+    from .common import builder_obj
+    bad = []
+    inc0, inc1 = Obj('inc0', 'IncludeNode'), Obj('inc1', 'IncludeNode')
+    plain = Obj('plain', 'ConfigDict', _children={})
+    for o in (inc0, inc1, plain):
+        o.missing.add('stages')
+    docs = [inc0, inc1, plain]
+    b = builder_obj(repo)
+    log = []
+    s0a, s0b, s1 = _node('s0a'), _node('s0b'), _node('s1')
+
+    def stub(name, recv, args, kwargs):
+        if name == 'preprocess':
+            log.append(recv.name)
+            return {'inc0': _stream('S0', [s0a, s0b]), 'inc1': _stream('S1', [s1])}.get(recv.name, recv)
+        if name in ('default_safe_flag', 'default_filename'):
+            return Opaque('cm')
+        if name == 'nodes':
+            return []
+        if name == 'rethrow_point':
+            return None
+        raise Unsupported('call of ' + name)
+    ev = FDE(repo, stubs={'ConfigNode.ayns.preprocess', 'default_safe_flag', 'default_filename', 'rethrow_point', 'nodes'}, stub=stub, max_depth=10)
+    ev.extcalls = {'yaml.parse': lambda *a, **k: list(docs), 'parse': lambda *a, **k: list(docs)}
+    import pathlib
+    ev.externals = {'pathlib.Path': pathlib.Path}
+    try:
+        r1 = ev.call(repo.func('Builder.add_source'), b, 'TEXT', raw_yaml=True)
+        if r1.raised or b.f.get('stages') != docs:
+            raise AnalysisError('%s: add_source with a stand-in parser not evaluable (%s)' % (rule, r1.raised or b.f.get('stages')))
+        r2 = ev.call(repo.func('Builder.preprocess'), b)
+    except Unsupported as e:
+        raise AnalysisError('builder pipeline (sources, then preprocess): finite-domain evaluator refused: %s' % e)
+    names = [getattr(x, 'name', repr(x)) for x in b.f.get('stages', [])]
+    if r2.raised:
+        bad.append('preprocess raises %s' % r2.raised)
+    elif log != ['inc0', 'inc1', 'plain']:
+        bad.append('documents added by one add_source call: [include -> 2 stages, include -> 1 stage, plain]; preprocess is asked of %s, expected each of the three once, in order - a document that is skipped keeps its unexpanded !include' % log)
+    elif names != ['s0a', 's0b', 's1', 'plain']:
+        bad.append('the stages after preprocessing are %s, expected [s0a, s0b, s1, plain]' % names)
+    if bad:
+        run.violation(rule, repo.func('Builder.preprocess'), 'add_source, then preprocess', '; '.join(bad))
+    else:
+        run.ok(rule, repo.func('Builder.preprocess'), 'documents added through add_source are each preprocessed once (3 documents, 2 of them expanding)')
+
+
 def builder_pipeline(repo, run, rule):
     bad = []
     rows = 0
